@@ -378,6 +378,24 @@ class Fn:
                         parts.append(x)
                 if not shorts or len(others) != 1 or len(shorts) != len(parts) - 1 or bid == self.entry:
                     continue
+                # each short-circuit edge must belong to one of the operands of THIS chain: a `land` block of an inner, negated
+                # conjunction (`a && !(b && c)`) also jumps to the join, but its "false" decides the opposite outcome
+                def _opkey(x):
+                    while isinstance(x, dict) and x.get('k') in ('tobool', 'paren'):
+                        x = x['e']
+                    return dstr(x)
+                want = [_opkey(x) for x in parts[:-1]]
+                have = []
+                for p in shorts:
+                    pc = (self.blocks[p].get('term') or {}).get('cond')
+                    while isinstance(pc, dict) and pc.get('k') in ('tobool', 'paren'):
+                        pc = pc['e']
+                    # the operand this block branches on: the rightmost operand of its own (partial) chain
+                    while isinstance(pc, dict) and pc.get('k') == 'bin' and pc.get('op') == op and not pc.get('val'):
+                        pc = pc['r']
+                    have.append(_opkey(pc))
+                if sorted(want) != sorted(have):
+                    continue
                 r = self.blocks[others[0]]
                 if r.get('term') or [x for x in r['succ'] if x is not None] != [bid] or r.get('noreturn'):
                     continue
